@@ -13,7 +13,7 @@ from sim import world as Wd
 ID = 'C14'
 LEVEL = 'exploration'
 ENGINE = 'differential'
-BUDGET = {'quick': 2500, 'thorough': 100000}
+BUDGET = {'quick': 6000, 'thorough': 100000}
 WALL = {'quick': 45, 'thorough': 1500}
 RULE = ('one trash-empty per case with --dry-run, or in interactive mode (-i or a tty on stdin) with a generated reply; '
         'trash content incl. malformed entries and orphans, DAYS, --trash-dir, -v; dry runs are compared with the real run on an '
